@@ -14,7 +14,18 @@ def run(facts):
              any(callee(t) and callee(t)["path"] == "core::convert::AsRef::as_ref" and "res" in callee(t) and callee(t)["res"] is None for _, t in b.calls())
              and b.j.get("output") in roles.handle_types(facts)]
     if len(cands) != 1:
-        raise RuleError("expected exactly one public constructor calling a user AsRef::as_ref, found %r" % [b.id for b in cands])
+        # the call of the owner's `as_ref` may sit in an accessor of the control block (`Owned::as_slice(&self)`): read `from_owner` with its
+        # helpers spliced in
+        from .inline import views
+        fo = facts.by_id.get("bytes::Bytes::from_owner", [])
+        cands = []
+        if len(fo) == 1:
+            for ib in views(facts, fo[0]):
+                if any(callee(t) and callee(t)["path"] == "core::convert::AsRef::as_ref" and "res" in callee(t) and callee(t)["res"] is None for _, t in ib.calls()):
+                    cands = [ib]
+                    break
+        if len(cands) != 1:
+            raise RuleError("expected exactly one public constructor calling a user AsRef::as_ref, found %r" % [b.id for b in cands])
     b = cands[0]
     key = b.id
     cfg = cfg_of(b)
@@ -163,6 +174,18 @@ def raw_block_then_user_code(res, facts):
                 raws.append(bi)
         if not raws:
             continue
+        # user code reached through a crate helper that is handed the raw block (`owned.as_slice()`): judged with the helpers spliced in
+        def has_user(body):
+            return any(callee(t_) is not None and (("res" in callee(t_) and callee(t_)["res"] is None) or callee(t_)["name"] in ("call_once", "call_mut"))
+                       for bi_, t_ in body.calls() if not body.blocks[bi_]["cleanup"])
+        if not has_user(b):
+            from .inline import views
+            for ib in views(facts, b):
+                if has_user(ib):
+                    b = ib
+                    raws = [bi for bi, t in b.calls() if callee(t) and (callee(t).get("res") or callee(t))["path"] == "alloc::boxed::Box::<T>::into_raw"
+                            and ty_head((callee(t).get("args") or [""])[0]) in cbs and not b.blocks[bi]["cleanup"]]
+                    break
         cfg = cfg_of(b)
         eb = ExprBuilder(b, facts, inline=False)
         users = []
